@@ -52,7 +52,7 @@ def coq_case(case, out):
         o = "[3;0]"
     else:
         o = "[" + ";".join(out) + "]"
-    return "(%s, %s, %s)" % (cx, tab, g.coq_bytes(case["data"])), o
+    return "((%s, (%s : table), %s) : ctx * table * bytes)" % (cx, tab, g.coq_bytes(case["data"])), "(%s : list Z)" % o
 
 
 def material(c, exe, rng, n):
@@ -211,10 +211,10 @@ def main():
             mb[i] ^= 1 << rng.randrange(8)
             add("C", mb, table, "bitflip-all")
     # big fields
-    for _ in range(2 if quick else 10):
+    for _ in range(2 if quick else 6):
         v5 = rng.random() < 0.5
         h = g.header5(rng) if v5 else g.header34(rng, 4)
-        body = g.rbytes(rng, rng.choice([1000, 4000, 65528, 65531]))
+        body = g.rbytes(rng, rng.choice([1000, 4000] if quick else [1000, 4000, 65528, 65531]))
         b = h + g.wire_field(rng.choice([g.T_UID, 0x2A, g.T_REFRESP, g.T_REFREQ]), body, v5)
         if v5:
             b += g.wire_field(g.T_DRAFT, g.DRAFT, True)
